@@ -348,7 +348,7 @@ class SymExec:
         if k == "int":
             return [(C(e.get("v", 0)), st)]
         c = cv(e)
-        if c is not None and k in ("sizeof", "ref"):
+        if c is not None and k in ("sizeof", "offsetof", "ref"):
             return [(C(c), st)]
         if k == "ref":
             d = e["decl"]
@@ -422,8 +422,27 @@ class SymExec:
                         out.append((("bin", op, norm(a), norm(b)), s2))
                 return out
             out = []
+            # pointer arithmetic is scaled by the pointee size (`(Header *) addr + 1` is sizeof (Header) bytes further on)
+            scale_l = scale_r = 1
+            if op in ("+", "-"):
+                tl, tr = self.fn.unit.type_of(e["l"]), self.fn.unit.type_of(e["r"])
+
+                def pointee(t):
+                    if t and t.get("k") == "ptr" and t.get("p") is not None:
+                        pt = self.fn.unit.types[t["p"]]
+                        return max(1, (pt.get("w") or 8) // 8)
+                    return None
+                pl, pr = pointee(tl), pointee(tr)
+                if pl and not pr:
+                    scale_r = pl
+                elif pr and not pl and op == "+":
+                    scale_l = pr
             for (a, s1) in self.ev(e["l"], st):
                 for (b, s2) in self.ev(e["r"], s1):
+                    if scale_r != 1:
+                        b = norm(("bin", "*", b, C(scale_r)))
+                    if scale_l != 1:
+                        a = norm(("bin", "*", a, C(scale_l)))
                     if op in CMPNEG:
                         out.append((norm(("cmp", op, a, b)), s2))
                     else:
@@ -474,7 +493,7 @@ class SymExec:
             return out
         if k == "call":
             return self.call(e, st)
-        if k == "sizeof":
+        if k in ("sizeof", "offsetof"):
             return [(C(e.get("cv", 0)), st)]
         if k == "str":
             return [(("str", e.get("v")), st)]
